@@ -10,7 +10,6 @@ import (
 	"github.com/pentops/j5/internal/bcl/internal/verif/j5ref"
 	"github.com/pentops/j5/internal/bcl/internal/verif/jx"
 	"github.com/pentops/j5/internal/bcl/internal/verif/mgen"
-	"github.com/pentops/j5/internal/bcl/internal/verif/pgen"
 	"github.com/pentops/j5/internal/bcl/internal/verif/vf"
 	"google.golang.org/protobuf/reflect/protoreflect"
 	"pgregory.net/rapid"
@@ -36,7 +35,7 @@ func laneCase(raw json.RawMessage) ([]vf.Failure, error) {
 	return fails, nil
 }
 
-var lanes = map[string]vf.LaneFunc{"raw": laneCase, "extended": laneCase, "j5s": laneCase}
+var lanes = map[string]vf.LaneFunc{"raw": laneCase, "extended": laneCase, "j5s": laneCase, "compiled": laneCase}
 
 func TestReplay(t *testing.T) {
 	if !vf.RunReplayMode(t, prop, lanes) {
@@ -83,10 +82,14 @@ func checkEncode(s *codecx.Schema, msg protoreflect.Message, extended bool) (fai
 	return fails, doc
 }
 
-func run(t *testing.T, lane string, extended bool) {
+func run(t *testing.T, lane string, extended bool) { runFrom(t, lane, extended, "raw") }
+
+func TestCompiled(t *testing.T) { runFrom(t, "compiled", false, "j5s") }
+
+func runFrom(t *testing.T, lane string, extended bool, source string) {
 	r := vf.Start(t, prop, lane)
 	rapid.Check(t, func(t *rapid.T) {
-		s, err := codecx.DrawSchema(t, pgen.Supported)
+		s, err := codecx.DrawFrom(t, source)
 		if err != nil {
 			t.Fatalf("generator: %v", err)
 		}
@@ -98,7 +101,7 @@ func run(t *testing.T, lane string, extended bool) {
 			}
 			ctx := s.MsgCtx(extended)
 			msg := ctx.Message(t, md, 0, "m.")
-			c := caseX{Case: s.Case(msg, "raw"), Extended: extended}
+			c := caseX{Case: s.Case(msg, source), Extended: extended}
 			fails, doc := checkEncode(s, msg, extended)
 			c.Doc = doc
 			nt := mgen.HasHardText(doc) || strings.Contains(doc, "!type") || strings.Contains(doc, "[{") || len(ctx.Classes) > 2
